@@ -164,7 +164,39 @@ func runC17(c *Ctx) {
 			}
 		})
 		if n == 0 {
-			c.undecided("R-INDEX-GUARD", fnName(fn), fn.Pos(), "no index into the parameter slice found")
+			// delegation: the sibling accessor does the indexing, and its result is used only when it is non-nil
+			delegated, why := false, "no index into the parameter slice found"
+			allInstrs(fn, func(in ssa.Instruction) {
+				call, ok := in.(*ssa.Call)
+				if !ok || len(call.Call.Args) < 2 || call.Call.Args[0] != ssa.Value(fn.Params[0]) {
+					return
+				}
+				cal := origin(staticCallee(&call.Call))
+				if cal == nil || cal == fn || (cal.Name() != "At" && cal.Name() != "PtrAt") || cal.Pkg != origin(fn).Pkg {
+					return
+				}
+				delegated = true
+				for _, r := range referrersOf(call) {
+					ld, ok := r.(*ssa.UnOp)
+					if !ok || ld.Op != token.MUL {
+						continue
+					}
+					guarded := false
+					for _, cm := range cmpsAt(ld.Block()) {
+						if cm.X == ssa.Value(call) && isNilConst(cm.Y) && cm.Op == token.NEQ {
+							guarded = true
+						}
+					}
+					if !guarded {
+						delegated, why = false, "the pointer returned by "+cal.Name()+" is dereferenced without a nil check"
+					}
+				}
+			})
+			if delegated {
+				c.ok("R-INDEX-GUARD", fnName(fn)+":delegates", fn.Pos(), "indexing is delegated to the sibling accessor; its result is dereferenced only when non-nil")
+			} else {
+				c.undecided("R-INDEX-GUARD", fnName(fn), fn.Pos(), why)
+			}
 		}
 	}
 
